@@ -43,6 +43,15 @@ CHECKS = {
     'C15': ('bounded-exhaustive enumeration of world descriptions from an explicit grammar through five entry variants (dict, dict handle, file handle at root / composite key / explicit sub-map) against an independent description->world function',
             'E3: every description of the grammar (<= 3 entities, <= 2 components, <= 2 processors, 13-value argument menu incl. the three reference forms, explicit / colliding ids), both entry points, handle at root and under a composite key; object_from_string on 13 dotted names',
             'CPython semantics; in-memory modules registered in sys.modules by the harness; JSON files on tmpfs', '3/C15'),
+    'C13': ('exhaustive enumeration of switch scripts on a real SimpleLoop with scripted clock and WorldHandle-loaded worlds; event ledger per world instance',
+            'E2: every script of <= 3 requests (2 and 3 handles; 4 requests for the lean request menu) x target x clear_current x clear_next x source (processor / on_update callback / coroutine) x via (switch with from_world / through default_loop / bare raise) x pre-loaded or not, probes dispatched into every world left',
+            'CPython semantics; desper.default_loop patched per case; load() count free', '3/C13'),
+    'C14': ('exhaustive enumeration of frame scripts and restarts on a real SimpleLoop with a scripted clock',
+            'E2: every script with <= 4 frames in total over <= 3 start() calls; frame = increment {0,0.5,1,3} x (nothing | processor position x {Quit, quit_loop(world), quit_loop(), SwitchWorld, RuntimeError}); per-frame ledger of world, processor and dt',
+            'CPython semantics; dyadic clock readings', '3/C14'),
+    'C18': ('complete value grids deciding bounded-degree polynomial identities with exact rational arithmetic; all swizzle strings; full {-1,0,1}^16 Mat4 inverse grid; tolerance grid for sqrt/angle operations',
+            'E3: full grids per operation family (vector arithmetic, cross, lerp, clamp, limit, all swizzles, matrix sums/products on all basis pairs plus dense guards, associativity/identity laws, 43 046 721 integer Mat4 inverses in thorough, constructors through their action on points); sqrt/angle family is a bounded tolerance check only',
+            'grid lemma: straight-line arithmetic of bounded per-variable degree (recorded in evidence); CPython int/Fraction exactness', '3/C18'),
 }
 
 NOT_YET = {p: 'check under construction (planned in DESIGN.md section 3); not claimed yet' for p in
